@@ -17,7 +17,7 @@ LEVEL = "model_checking"
 MANIFEST = {
     "engine": "E3-bfs",
     "technique": "explicit-state breadth-first search over all parameter histories (length <=2/<=3 over a 6-element parameter alphabet) through the real apply_params, invariants checked in every reached state",
-    "text": "For every device configuration of the menu (continuous isotropic/diagonal/full-tensor two-material, discrete with 2 or 3 materials with and without Lorentz dispersion, etched; voxel sizes 1 and 2; isotropic or diagonal static background) the real apply_params is iterated along every history of parameter sets up to the bound; in each reached state every device cell equals the inverse of the linear permittivity blend (continuous, hence within the material range) or exactly the inverse permittivity and dispersion coefficients of one device material (discrete), every cell outside the devices is bit-identical to the placed arrays, and the set of distinct material states has exactly |alphabet|+1 elements (the last parameter set alone decides).",
+    "text": "For every device configuration of the menu (continuous isotropic/diagonal/full-tensor two-material, discrete with 2 or 3 materials with and without Lorentz dispersion, etched; voxel sizes 1 and 2; isotropic or diagonal static background) the real apply_params is iterated along every history of parameter sets up to the bound; in each reached state every device cell equals the inverse of the linear permittivity blend (continuous, hence within the material range) or exactly the inverse permittivity and dispersion coefficients of one device material (discrete), every cell outside the devices is bit-identical to the placed arrays, and longer histories reach no material state beyond the initial one and those of the single parameter sets (|alphabet|+1 states unless discretisation identifies two sets): the last parameter set alone decides.",
     "note": "Parameter values and material values come from finite alphabets; histories are enumerated completely up to the bound. Full-length histories ending in the all-distinct set are replayed from a freshly placed scene (public place_objects + apply_params) as conformance traces.",
 }
 RULE = (
